@@ -91,6 +91,9 @@ func groups(log []Mutation) []group {
 // Cuts returns every down-closed subset of the log (as sorted index lists), including the empty and the
 // complete one. exhaustive is false when a group was too large and only its prefixes (in observed order)
 // and single omissions were generated.
+// CutCap is the largest number of down-closed subsets enumerated for one group.
+var CutCap = 1 << 12
+
 func Cuts(log []Mutation) (cuts [][]int, exhaustive bool) {
 	exhaustive = true
 	gs := groups(log)
@@ -101,7 +104,7 @@ func Cuts(log []Mutation) (cuts [][]int, exhaustive bool) {
 		total := 1
 		for _, ch := range g.chains {
 			total *= len(ch) + 1
-			if total > 1<<12 {
+			if total > CutCap {
 				break
 			}
 		}
@@ -110,7 +113,7 @@ func Cuts(log []Mutation) (cuts [][]int, exhaustive bool) {
 			all = append(all, ch...)
 		}
 		sort.Ints(all)
-		if total > 1<<12 {
+		if total > CutCap {
 			exhaustive = false
 			for k := 1; k <= len(all); k++ {
 				cuts = append(cuts, append(append([]int{}, done...), all[:k]...))
